@@ -1261,6 +1261,23 @@ def body(res, tools, work, proved):
                     note_viol(route, v, case)
                 stats["routes"] += 1
             stats["err_classes"][o["plain"]["err"]] = stats["err_classes"].get(o["plain"]["err"], 0) + 1
+            # the same program statement by statement on one VM whose code grows (REPL style): the modules loaded by
+            # earlier statements must keep their own globals across the Runs - same events, same outcome as in one piece
+            # (a program the compiler rejects as a whole has no piecewise counterpart)
+            inc = o.get("incr")
+            if inc is not None and o["plain"]["err"] not in ("parse", "compile", "timeout") and inc["err"] != "timeout":
+                stats["incremental"] = stats.get("incremental", 0) + 1
+                pe = [e for e in parse_real(o["plain"]["events"], c["idx"])]
+                ie = [e for e in parse_real(inc["events"], c["idx"])]
+                pe, ie = strip_depth(canon(strip_sid(pe))), strip_depth(canon(strip_sid(ie)))
+                if pe != ie or o["plain"]["err"] != inc["err"]:
+                    j = 0
+                    while j < min(len(pe), len(ie)) and pe[j] == ie[j]:
+                        j += 1
+                    note_viol("incr", ("piecewise", "evaluated statement by statement on one VM (growing main code) the program "
+                                       "observes different module state than evaluated in one piece: first difference at event %d: "
+                                       "%r (one piece) vs %r (piecewise); outcome %s vs %s"
+                                       % (j, pe[j] if j < len(pe) else None, ie[j] if j < len(ie) else None, o["plain"]["err"], inc["err"]), None), case)
             outcome, mevs, counters, acc = parse_model(mline)
             if mline.startswith("BADINPUT") or outcome in ("FUEL", "UNBOUND", "FUZZY"):
                 stats["model_fuzzy" if outcome == "FUZZY" else ("model_fuel" if outcome == "FUEL" else "model_unbound")] += 1
@@ -1287,7 +1304,7 @@ def body(res, tools, work, proved):
                    "extracted Importer model on the import nodes of the real AST; stage B: %d module trees (shared names, both "
                    "extensions, broken and failing modules, transitive/cyclic/self imports) x %d main programs rendered from "
                    "abstract actions, traces of body starts/ends (with import depth read off the Go call stack), importer "
-                   "requests, files opened, observed values and module identities compared event by event with the model; "
+                   "requests, files opened, observed values and module identities compared event by event with the model; every program also runs statement by statement on one VM whose main code grows (REPL style) and must give the same events and outcome as in one piece; "
                    "independent oracle on the observations. Non-trivial = texts whose import reached the importer, "
                    "programs with at least two module body starts." % (len(texts), len(cases), mains_per_tree))
     cov["samples"] = samples
